@@ -14,7 +14,7 @@ for p in PROPS.values():
         jobs.append(t)
 def go(t):
     if t.get("kind") == "fuzz":
-        return B.ensure_fuzz_target(t["src"], t.get("extra_cxx", ()))
+        return B.ensure_fuzz_target(t["src"], t.get("extra_cxx", ()), t.get("extra_src", ()))
     return B.ensure_target(t.get("flavour", "rel"), t["src"], extra_cxx=t.get("extra_cxx", ()), extra_ld=t.get("extra_ld", ()))
 with cf.ThreadPoolExecutor(8) as ex:
     for r in ex.map(go, jobs):
